@@ -25,8 +25,8 @@ from common import frac, rstr, rparse, close
 import common
 
 ID = "C15"
-LEAN_TARGETS = ["Strengths.Props.C15"]
-PROP_FILES = ["Strengths/Props/C15.lean"]
+LEAN_TARGETS = ["Strengths.Props.C15", "Strengths.Props.C15Rate"]
+PROP_FILES = ["Strengths/Props/C15.lean", "Strengths/Props/C15Rate.lean"]
 GEN_GROUPS = ["IndexPy", "GeomPy", "EngineCpp"]
 RULE = ("exhaustive: every grid shape w,h,d <= 3 (quick) / <= 5 (thorough) x all 8 periodic/reflecting settings; per grid every "
         "cell, every ordered pair of cells, every linear index in [-size-2, 2*size+2], every coordinate triple in "
